@@ -265,7 +265,11 @@ def check(pid, tier):
     coarse_now = {}
     for o in real:
         coarse_now.setdefault(o.coarse, []).append(o)
-    missing = [c for c in lock.get("obligations", []) if c not in coarse_now]
+    # vacuity guards: (1) every postcondition of every contract was generated on some path of every body;
+    # (2) the number of obligations did not collapse w.r.t. the committed lock (informational threshold: half)
+    missing = [f"{r.target.split(':')[1]}/post:{lab} (never generated)" for r in reports for lab in getattr(r, "untouched", [])]
+    if lock.get("obligations") and len(coarse_now) * 2 < len(lock["obligations"]):
+        missing.append(f"obligation count collapsed: {len(coarse_now)} now vs {len(lock['obligations'])} locked")
 
     # ---- B
     bounded = []
